@@ -171,11 +171,14 @@ def evenConstShift (c : Nat) : Nat :=
   if 2 ^ n > c then n - 1 else n
 
 /-- `QintImp.mul_even_const(t_num, const, result_type)` with `t` = size of `result_type`,
-as coded: `x << n` plus, when `const - 2**n > 0`, `x << int((const - 2**n) / 2)`. -/
-def mulEvenConst (t : Nat) (num : List BExp) (c : Nat) : List BExp :=
+as coded: `x << n` plus, when `r = const - 2**n > 0`, `x << int(r / 2)`.  `const` is an instance
+of the constant's Qint class (`w` bits), so `const - 2**n` is `QintImp.__sub__`: reduced modulo
+`2**w` (for `const = 0`: `n = 0`, `r = 2**w - 1`). -/
+def mulEvenConst (t w : Nat) (num : List BExp) (c : Nat) : List BExp :=
   let n := evenConstShift c
   let numR := shiftLeft t num n
-  if c > 2 ^ n then qAdd numR (shiftLeft t num ((c - 2 ^ n) / 2)) else numR
+  let r := if c ≥ 2 ^ n then c - 2 ^ n else (c + 2 ^ w - 2 ^ n) % 2 ^ w
+  if r > 0 then qAdd numR (shiftLeft t num (r / 2)) else numR
 
 /-- one row of the schoolbook loop: adds `l_i * r` into `product` at offset `i`.
 `j` runs over the bits of `r`; `k = i + j`; `last = n + m - 1`. -/
@@ -215,7 +218,8 @@ def qMul (q : Quirks) (cl cr : Bool) (nl nr : Nat) (l_ r_ : List BExp) : Nat × 
   let t := mulSizing n m
   if q.mulEvenConst && (cl || cr) && litVal (if cl then l1 else r1) % 2 == 0 then
     let num := if cr then l1 else r1
-    (t, crop t (fill t (mulEvenConst t num (litVal (if cl then l1 else r1)))))
+    let cst := if cl then l1 else r1
+    (t, crop t (fill t (mulEvenConst t cst.length num (litVal cst))))
   else
     (t, crop t (fill t (schoolbook l1 r1)))
 
